@@ -31,7 +31,7 @@ class C09(Prop):
     assumptions = ["integer results do not overflow (generator stays inside)", "float bound for the oracle: gamma_n * sum of terms"]
 
     def gen(self, tier, rng):
-        reps = 25 if tier == "quick" else 250
+        reps = 25 if tier == "quick" else 1000
         for rep in range(reps):
             for et in ETS:
                 nd = rng.range(1, 4)
